@@ -420,7 +420,7 @@ def cli(argv=None, mode='output'):
                 "You did not tell which formula you wanted to generate.\n")
 
         # Generate the formula and apply transformations
-        if hasattr(args, 'seed') and args.seed:
+        if hasattr(args, 'seed') and args.seed is not None:
             random.seed(args.seed)
 
         try:
@@ -430,7 +430,7 @@ def cli(argv=None, mode='output'):
         except RuntimeError as e:
             raise InternalBug(e) from e
 
-        if hasattr(args, 'seed') and args.seed:
+        if hasattr(args, 'seed') and args.seed is not None:
             opb.header['random seed'] = args.seed
         opb.header['command line'] = "pbgen " + " ".join(argv[1:])
 
